@@ -53,6 +53,9 @@ MALFORMED = [
     ('cutdate3', b'[Trash Info]\nPath=/orig/c3\nDeletionDate=2020-01-01T10:'),
     ('latin1path', b'[Trash Info]\nPath=/orig/caf\xe9\nDeletionDate=2000-01-01T00:00:00\n'),
     ('twodates', b'[Trash Info]\nPath=/orig/td\nDeletionDate=zz\nDeletionDate=2000-01-01T00:00:00\n'),
+    ('isooffset', b'[Trash Info]\nPath=/orig/iso1\nDeletionDate=2000-01-01T00:00:00+02:00\n'),
+    ('isoz', b'[Trash Info]\nPath=/orig/iso2\nDeletionDate=2000-01-01T00:00:00Z\n'),
+    ('isooffset2', b'[Trash Info]\nPath=/orig/iso3\nDeletionDate=2000-01-01T00:00:00+0100\n'),
 ]
 
 
